@@ -1,8 +1,9 @@
 -------------------------------- MODULE Wire --------------------------------
 (***************************************************************************)
 (* Byte-exact wire formats of the array codecs whose layout is a pure      *)
-(* function of the values: frame-of-reference, run-length (with and        *)
-(* without count header), unsigned and signed delta, group, dictionary.    *)
+(* function of the values: frame-of-reference, patched frame-of-reference, *)
+(* run-length (with and without count header), unsigned and signed delta,  *)
+(* group, dictionary, Elias gamma/delta arrays, BP128 partial blocks.      *)
 (* Enc(codec, xs) is the sequence of bytes the encoder is specified to     *)
 (* produce for the sequence xs of 64-bit values (limb triples, Limbs.tla). *)
 (*                                                                         *)
@@ -66,15 +67,73 @@ DictEnc(xs) ==
   IN LTaggedEnc(LN(Len(d))) \o Flatten([k \in 1..Len(d) |-> LTaggedEnc(d[k])])
      \o LTaggedEnc(LN(Len(xs))) \o Flatten([i \in 1..Len(xs) |-> LLE(LN(IndexOf(d, xs[i]) - 1), iw)])
 
-(* adaptive envelope: one byte naming the encoding, then that encoding's own layout;
-   specified for DELTA (0), FOR (1), DICT (3) and TAGGED (5) *)
-TaggedSeqEnc(xs) == Flatten([i \in 1..Len(xs) |-> LTaggedEnc(xs[i])])
-AdaptiveTypes == {0, 1, 3, 5}
-AdaptiveEnc(t, xs) == <<t>> \o (CASE t = 0 -> DeltaUEnc(xs) [] t = 1 -> ForEnc(xs)
-                                  [] t = 3 -> DictEnc(xs) [] OTHER -> TaggedSeqEnc(xs))
+(* ----------------------------------------------------------------------- *)
+(* bit-level formats                                                        *)
+LBit(a, k) == (LByte(a, k \div 8) \div (2 ^ (k % 8))) % 2      \* bit k (0 = least significant)
+LBinMSB(a, n) == [i \in 1..n |-> LBit(a, n - i)]                 \* the n low bits, most significant first
+LBinLSB(a, n) == [i \in 1..n |-> LBit(a, i - 1)]                 \* the n low bits, least significant first
+Zeros(n) == [i \in 1..n |-> 0]
+PadTo8(bits) == bits \o Zeros((8 - (Len(bits) % 8)) % 8)
+\* bytes of a bit string whose first bit is the MOST significant bit of the first byte (Elias bit writer)
+PackMSB(bits) == LET b == PadTo8(bits)
+                 IN [k \in 1..(Len(b) \div 8) |-> FoldLeft(LAMBDA acc, j : 2 * acc + b[8 * (k - 1) + j], 0, <<1, 2, 3, 4, 5, 6, 7, 8>>)]
+\* bytes of a bit string whose first bit is the LEAST significant bit of the first byte (BP128 blocks)
+PackLSB(bits) == LET b == PadTo8(bits)
+                 IN [k \in 1..(Len(b) \div 8) |-> FoldLeft(LAMBDA acc, j : 2 * acc + b[8 * (k - 1) + 9 - j], 0, <<1, 2, 3, 4, 5, 6, 7, 8>>)]
 
-WireCodecs == {"for", "for_batch", "rle", "rle_hdr", "delta_u", "delta_s", "group", "dict", "dict_with"}
-Enc(codec, xs) ==
+(* Elias gamma: floor(log2 N) zeros, then N in binary; Elias delta: gamma(bit length), then N without its
+   leading one; an array is the concatenation of the codes, zero-padded to a whole byte *)
+GammaCode(a) == LET n == LBitLen(a) - 1 IN Zeros(n) \o LBinMSB(a, n + 1)
+EDeltaCode(a) == LET L == LBitLen(a) IN GammaCode(LN(L)) \o LBinMSB(a, L - 1)
+GammaArrEnc(xs) == PackMSB(Flatten([i \in 1..Len(xs) |-> GammaCode(xs[i])]))
+EDeltaArrEnc(xs) == PackMSB(Flatten([i \in 1..Len(xs) |-> EDeltaCode(xs[i])]))
+
+(* BP128, fewer than 128 values (one partial block): 0x80 | bit width, count byte, values LSB-first at that
+   width; the delta form stores the first value tagged and packs the successive differences *)
+MaxBitLen(xs) == FoldLeft(LAMBDA acc, x : IF LBitLen(x) > acc THEN LBitLen(x) ELSE acc, 0, xs)
+PartialBlock(ys) == LET w == MaxBitLen(ys)
+                    IN <<128 + w, Len(ys)>> \o PackLSB(Flatten([i \in 1..Len(ys) |-> LBinLSB(ys[i], w)]))
+Bp128Enc(xs) == PartialBlock(xs)
+Bp128Enc64(xs) == LTaggedEnc(LN(Len(xs))) \o PartialBlock(xs)    \* the 64-bit form announces the count first
+Bp128DeltaEnc(xs) == LTaggedEnc(xs[1])
+                     \o (IF Len(xs) = 1 THEN <<>> ELSE PartialBlock([i \in 1..(Len(xs) - 1) |-> LSub(xs[i + 1], xs[i])]))
+
+(* patched frame of reference at percentile t: tagged minimum, width byte, tagged count, one slot of `width'
+   bytes per value (offset from the minimum, or all ones for a value above the percentile value), tagged
+   exception count, then (tagged position, tagged value) per exception in input order *)
+CountLeq(xs, v) == Cardinality({i \in 1..Len(xs) : LLeq(xs[i], v)})
+\* element at 0-based rank k of the sorted multiset
+RankValue(xs, k) == LET c == {xs[i] : i \in 1..Len(xs)}
+                        ok == {v \in c : CountLeq(xs, v) > k}
+                    IN CHOOSE v \in ok : \A u \in ok : LLeq(v, u)
+AllOnes(w) == [i \in 1..w |-> 255]
+PforEnc(t, xs) ==
+  LET n == Len(xs)
+      mn == LSeqMin(xs)
+      ti == IF (n * t) \div 100 >= n THEN n - 1 ELSE (n * t) \div 100
+      tv == RankValue(xs, ti)
+      w == LByteWidth(LSub(tv, mn))
+      exc == SelectSeq([i \in 1..n |-> i], LAMBDA i : LLt(tv, xs[i]))
+  IN LTaggedEnc(mn) \o <<w>> \o LTaggedEnc(LN(n))
+     \o Flatten([i \in 1..n |-> IF LLt(tv, xs[i]) THEN AllOnes(w) ELSE LLE(LSub(xs[i], mn), w)])
+     \o LTaggedEnc(LN(Len(exc)))
+     \o Flatten([k \in 1..Len(exc) |-> LTaggedEnc(LN(exc[k] - 1)) \o LTaggedEnc(xs[exc[k]])])
+
+(* adaptive envelope: one byte naming the encoding, then that encoding's own layout;
+   specified for DELTA (0), FOR (1), PFOR at the 95th percentile (2), DICT (3), BITMAP (4; the
+   serialised set object) and TAGGED (5) *)
+TaggedSeqEnc(xs) == Flatten([i \in 1..Len(xs) |-> LTaggedEnc(xs[i])])
+\* serialised set object, array container (fewer than 4096 members): container type 0, 32-bit little-endian
+\* cardinality, members ascending as 16-bit little-endian words
+BitmapArrayEnc(xs) == LET d == SortedDistinct(xs)
+                      IN <<0>> \o LLE(LN(Len(d)), 4) \o Flatten([k \in 1..Len(d) |-> LLE(d[k], 2)])
+AdaptiveTypes == {0, 1, 2, 3, 4, 5}
+AdaptiveEnc(t, xs) == <<t>> \o (CASE t = 0 -> DeltaUEnc(xs) [] t = 1 -> ForEnc(xs) [] t = 2 -> PforEnc(95, xs)
+                                  [] t = 3 -> DictEnc(xs) [] t = 4 -> BitmapArrayEnc(xs) [] OTHER -> TaggedSeqEnc(xs))
+
+WireCodecs == {"for", "for_batch", "rle", "rle_hdr", "delta_u", "delta_s", "group", "dict", "dict_with",
+               "gamma", "edelta", "bp32", "bp64", "bpd32", "bpd64", "pfor"}
+Enc(codec, param, xs) ==
   CASE codec \in {"for", "for_batch"} -> ForEnc(xs)
     [] codec = "rle" -> RleEnc(xs)
     [] codec = "rle_hdr" -> RleHdrEnc(xs)
@@ -82,4 +141,10 @@ Enc(codec, xs) ==
     [] codec = "delta_s" -> DeltaSEnc(xs)
     [] codec = "group" -> GroupEnc(xs)
     [] codec \in {"dict", "dict_with"} -> DictEnc(xs)
+    [] codec = "gamma" -> GammaArrEnc(xs)
+    [] codec = "edelta" -> EDeltaArrEnc(xs)
+    [] codec = "bp32" -> Bp128Enc(xs)
+    [] codec = "bp64" -> Bp128Enc64(xs)
+    [] codec \in {"bpd32", "bpd64"} -> Bp128DeltaEnc(xs)
+    [] codec = "pfor" -> PforEnc(param, xs)
 =============================================================================
